@@ -2,7 +2,8 @@
 
 Contract on the real `OperationGroup.fill` and `OperationGroup.autofill` (pytezos.operation.group, fees) run against the
 simulated node (specs/C25_node.py, run_operation answering chosen consumptions):
-  requires  the fee is chosen by the client: every fee field is '0' on entry and no `fee=` argument is passed
+  requires  the fee is chosen by the client: no `fee=` argument is passed; for fill every fee field is '0' on entry (fill keeps a
+            fee it finds), autofill recomputes the fee whatever the contents carry (so refilled groups qualify)
   ensures   1000 * sum(fee) >= 100000 + 1000 * size + m * sum(gas_limit)      (specs/C24_fee_rule.py)
             size = 32 (branch) + forged contents with the FINAL fee/counter/limits (independent schema of
             specs/operation_schema.py) + signature length of the source key kind (64; tz4: 96);
@@ -110,10 +111,54 @@ def cases(thorough):
                 i += 1
                 out.append(dict(src=s, kinds=b, counter_class=CC[i % 5], amount_class=AC[i % 5], const='default', mode='autofill', args=a,
                                 gas_i=i % 7, sto_i=(i // 7) % 4))
+    # G: fields the caller set BEFORE the call (the builders leave source '' and the limits '0'): source given, gas_limit / storage_limit
+    #    pre-set to values above and below the defaults (fill keeps them and must price the limit the content carries; autofill
+    #    replaces them).  fill(gas_limit=...) together with a pre-set gas_limit is left out: see CANDIDATE_DEFECT below.
+    i = 0
+    for b in SPECIAL_BATCHES:
+        for s in SRC:
+            for pf in H.PREFILL:
+                i += 1
+                fa = [a for a in FILL_ARGS if 'gas_limit' not in a or 'gas' not in pf]
+                out.append(dict(src=s, kinds=b, counter_class=CC[i % 5], amount_class=AC[i % 5], const=('default', 'larger', 'smaller')[i % 3],
+                                mode='fill', args=fa[i % len(fa)], prefill=pf))
+                out.append(dict(src=s, kinds=b, counter_class=CC[(i + 1) % 5], amount_class=AC[(i + 2) % 5], const='default', mode='autofill',
+                                args=AUTO_ARGS[i % len(AUTO_ARGS)], gas_i=i % 7, sto_i=(i // 7) % 4, prefill=pf))
+    # H: the call is made on a group that was filled / autofilled BEFORE (refill): fill twice, fill then autofill, autofill twice
+    #    with the second simulation consuming 50000 gas more per content (the fee of the first call is stale), autofill then fill
+    i = 0
+    for b in SPECIAL_BATCHES + [['tx_implicit'] * 9, ['tx_kt1_params'] + ['tx_implicit'] * 11]:
+        for s in SRC:
+            for mode, resim in (('fill+fill', None), ('fill+autofill', None), ('autofill+autofill', 'higher'), ('autofill+autofill', None),
+                                ('autofill+fill', None), ('fill+autofill+autofill', 'higher')):
+                i += 1
+                a = REFILL_ARGS[i % len(REFILL_ARGS)]
+                c = dict(src=s, kinds=b, counter_class=CC[i % 5], amount_class=AC[(i // 5) % 5], const='default', mode=mode, args=a,
+                         gas_i=i % 7, sto_i=(i // 7) % 4, **({'resim': resim} if resim else {}))
+                if mode == 'autofill+fill':
+                    # precondition (real nodes): the simulation of a manager operation never reports 0 gas.  With 0 autofill writes
+                    # gas_limit '0', which a later fill() takes for "unset" and replaces WITHOUT re-pricing the fee it finds
+                    # (CANDIDATE_DEFECT remark below); the grid value 0 is therefore skipped for this mode only
+                    c['gas_list'] = H.GAS_GRID[1 + i % 3:]
+                out.append(c)
+    # fill(gas_limit=G) on a content whose gas_limit was pre-set to L > G keeps L: the fee must be priced for L (was priced for G: fixed in
+    # /repo abf26c5, recorded in known_findings.json as fixed)
+    for s in SRC:
+        out.append(dict(src=s, kinds=['tx_implicit'], counter_class=1, amount_class=1, const='default', mode='fill',
+                        args={'gas_limit': 20000}, prefill='gas'))
+    if CANDIDATE_DEFECT:
+        for s in SRC:
+            # autofill with a simulation reporting 0 gas writes gas_limit '0'; fill() afterwards sets the default limit and keeps the fee
+            out.append(dict(src=s, kinds=['delegation'], counter_class=1, amount_class=1, const='default', mode='autofill+fill', args={},
+                            gas_i=0, sto_i=0))
     return out
 
 
 LARGE = [5, 8, 9, 10, 11, 12, 16, 24, 40]
+SPECIAL_BATCHES = [[k] for k in H.KINDS] + [['tx_implicit', 'tx_kt1_params'], ['reveal', 'tx_implicit'], ['tx_implicit'] * 3,
+                                             ['origination', 'delegation'], ['tx_kt1_big', 'tx_implicit'], ['tx_implicit', 'tx_kt1_big']]
+REFILL_ARGS = [{}, {'gas_limit': 20000}, {'storage_limit': 1000}]      # arguments accepted by both fill and autofill
+CANDIDATE_DEFECT = False
 
 
 def run_R(ck):
@@ -134,6 +179,10 @@ def run_R(ck):
     ck.bound('C24_dimensions', dict(source=SRC, counter_leb_bytes=CC, amount_leb_bytes=AC, constants=list(H.CONSTANTS),
                                     fill_args=[sorted(a) for a in FILL_ARGS], autofill_args=[sorted(a) for a in AUTO_ARGS],
                                     consumed_milligas=H.GAS_GRID, storage=H.STORAGE_GRID))
+    ck.bound('C24_prefilled_and_refilled', dict(batches=SPECIAL_BATCHES, prefilled_fields=list(H.PREFILL), pre_set_gas_limits=H.PRE_GAS,
+                                                pre_set_storage_limits=H.PRE_STORAGE,
+                                                refill_modes=['fill+fill', 'fill+autofill', 'autofill+autofill (second simulation +50000 gas per content)',
+                                                              'autofill+fill', 'fill+autofill+autofill'], refill_large_batches=[9, 12]))
     ck.rule('C24-R: full product (batch x source x counter class x amount class x fill arguments) and (batch x source x gas x storage x '
             'autofill arguments) for batches up to the stated length; longer batches (up to 4) with the remaining dimensions rotating; '
             'class = (mode, source kind, batch length, explicit arguments, node constants)')
